@@ -20,7 +20,8 @@ ASSUMPTIONS = [
     "so an edit to _uscan.re alone is invisible to every build)",
     "a clean ASan/UBSan run means no report on the scans performed, not memory safety",
 ]
-REQUIRED = {"tiling_checks": 1000, "ebad_gaps_seen": 1, "nul_stops_seen": 1}
+REQUIRED = {"tiling_checks": 1000, "ebad_gaps_seen": 1, "nul_stops_seen": 1, "compat_tiling_checks": 1000,
+            "long_token_inputs": 10}
 
 EBAD = ""
 LEX = [
@@ -75,6 +76,7 @@ def plan(tier, seed):
     nr = 16
     per = 1500 if tier == "quick" else 40000
     shards += [{"kind": "random", "shard": i, "count": per, "seed": seed} for i in range(nr)]
+    shards += [{"kind": "long", "shard": 0, "seed": seed}]
     if tier == "thorough":
         shards += [{"kind": "enum", "shard": i, "n": n, "depth": 3, "seed": seed, "san": True}
                    for i in range(n)]
@@ -83,9 +85,33 @@ def plan(tier, seed):
     return shards
 
 
+_tok = []
+
+
+def check_compat(text, R):
+    """the same tiling law on the CompatScanner output (what the parser consumes)"""
+    if not _tok:
+        from mwlib.parser.token import utoken
+        _tok.append(utoken.tokenize)
+    if not text:
+        return
+    try:
+        toks = _tok[0](text)
+    except Exception:
+        R.count("compat_tokenize_raised_(C01_matter)")
+        return
+    r = tiling_error(text, [(t.type, t.start, t.len) for t in toks])
+    R.count("compat_tiling_checks")
+    if isinstance(r, str):
+        R.violation("compat-tiling:" + _kind(r), "utoken.tokenize: " + r, {"text": text, "compat": True},
+                    detail=repr(toks[:40]))
+
+
 def check_one(text, scan, R, seen, crumb):
     if crumb:
         R.breadcrumb(text)
+    else:
+        check_compat(text, R)
     try:
         toks = scan(text)
     except Exception as e:  # the scanner has no business raising
@@ -127,7 +153,20 @@ def run_shard(desc, R):
     scan = utoken.scan
     seen = set()
     crumb = bool(desc.get("san"))
-    if desc["kind"] == "enum":
+    if desc["kind"] == "long":
+        # single tokens longer than 16-bit lengths (merged text, comments, URLs, tags, runs)
+        for n in (65535, 65536, 65537, 70001, 131073):
+            for mk in (lambda n: "a" * n, lambda n: "ab cd, " * (n // 7 + 1), lambda n: "<!--" + "x" * n + "-->",
+                       lambda n: "http://h/" + "p" * n, lambda n: "[http://h/" + "p" * n + " l]",
+                       lambda n: "<b class=" + "x" * n + ">", lambda n: "=" * n, lambda n: " " * n + "{|",
+                       lambda n: "\n" * n, lambda n: "\n" + " \n" * (n // 2), lambda n: "'" * n, lambda n: "_" * n,
+                       lambda n: "-" * n, lambda n: ":" * n + "{|", lambda n: "é" * n, lambda n: "&" + "a" * n + ";",
+                       lambda n: "\x7fUNIQ-" + "a" * n + "-1-0-QINU\x7f", lambda n: "|" + "-" * n):
+                body = mk(n)
+                for text in (body, "x\n" + body + "\nfoo [[bar]]", "{|\n" + body + "\n|}"):
+                    check_one(text, scan, R, seen, crumb)
+                    R.count("long_token_inputs")
+    elif desc["kind"] == "enum":
         n, sh = desc["n"], desc["shard"]
         for d in range(1, desc["depth"] + 1):
             firsts = [i for i in range(len(LEX)) if i % n == sh]
@@ -165,6 +204,10 @@ def replay(case):
     text = case.get("text")
     if text is None:
         text = case.get("last_case") or ""
+    if case.get("compat"):
+        toks = [(t.type, t.start, t.len) for t in utoken.tokenize(text)]
+        r = tiling_error(text, toks)
+        return [("compat-tiling:" + _kind(r), r, repr(toks[:80]))] if isinstance(r, str) else []
     toks = utoken.scan(text)
     r = tiling_error(text, toks)
     if isinstance(r, str):
